@@ -192,16 +192,46 @@ def check_vocabulary(ctx: Ctx):
         ctx.undecided("R18.5.floor", f, None, "floor:R18.5", f"{len(names)} metric names collected, confirmed floor is 24")
 
 
+def check_subject_wiring(ctx: Ctx):
+    """R18.6: the row recorded for a subject is the evaluator's result on *that subject's*
+    prediction and reference, each passed in its own parameter."""
+    prog = ctx.prog
+    fs, values, its, agg = write_file(ctx, False)
+    ev = prog.cls("panoptica_evaluator:Panoptica_Evaluator").lookup("evaluate")
+    names = [p.name for p in ev.call_params]
+    f = agg.cls.lookup("evaluate")
+    n = 0
+    for it in its:
+        for held, args, kwargs, node, _ in it.root.eval_calls:
+            n += 1
+            bound = dict(zip(names, args))
+            bound.update(kwargs)
+            bad = {}
+            for pn in names:
+                lp = pn.lower()
+                want = Sym("PRED_ARR") if lp.startswith("pred") else Sym("REF_ARR") if lp.startswith("ref") else None
+                if want is not None and bound.get(pn) != want:
+                    bad[pn] = repr(bound.get(pn))
+            ctx.decide("R18.6", f, node, f"{f.qual}->evaluator.evaluate", "the aggregator evaluates the subject's prediction and reference, each in its own parameter", not bad, {"mismatched": bad})
+    if n < 1:
+        ctx.undecided("R18.6.floor", f, f.node, "floor:R18.6", "no call of the evaluator observed in Panoptica_Aggregator.evaluate")
+
+
 def check(ctx: Ctx):
     check_roundtrip(ctx)
     check_dialect(ctx)
     check_vocabulary(ctx)
+    try:
+        check_subject_wiring(ctx)
+    except (Undecided, AnchorMissing) as e:
+        ctx.undecided("R18.6", None, None, "R18.6:check_subject_wiring", f"{type(e).__name__}: {e}")
 
 
 _A = "panoptica/panoptica_aggregator.py"
 _S = "panoptica/panoptica_statistics.py"
 
 VARIANTS = [
+    Variant("C18-m-subject-arrays-swapped", "R18.6", "mutant", [(_A, "        res = self.__panoptica_evaluator.evaluate(\n            prediction_arr,\n            reference_arr,", "        res = self.__panoptica_evaluator.evaluate(\n            reference_arr,\n            prediction_arr,")]),
     Variant("C18-m-d9", "R18.2", "mutant", [(_S, 'tuple(c.rsplit("-", 1))', 'tuple(c.split("-"))')], control=True, note="defect D9 of the original tree"),
     Variant("C18-m-split-first", "R18.2", "mutant", [(_S, 'tuple(c.rsplit("-", 1))', 'tuple(c.split("-", 1))')]),
     Variant("C18-m-drop-missing-cell", "R18.", "mutant", [(_A, "                for e in self.__evaluation_metrics:\n                    mvalue = result_dict[e] if e in result_dict else \"\"\n                    content.append(mvalue)", "                content += [result_dict[e] for e in self.__evaluation_metrics if e in result_dict]")], control=True),
